@@ -75,7 +75,10 @@ Point ==
 ZeroIter == /\ l <= TraceLen /\ LET e == TheTrace[l] IN e.e = "ZeroIter" /\ e.nz = 0 /\ e.nextId = e.usedId
             /\ l' = l + 1 /\ UNCHANGED <<chain, lastOut>>
 
-Next == ZeroIter \/ GridCase \/ RefStep \/ Default \/ Icdf \/ IcdfTop \/ Point
+\* many dimensions: every point inside its bins, weight = product of bins x width (2 d + 4 roundings), finite on uniform grids
+PointHD == /\ l <= TraceLen /\ LET e == TheTrace[l] IN e.e = "PointHD" /\ e.points > 0 /\ e.bad = 0 /\ e.nonfinite = 0
+           /\ l' = l + 1 /\ UNCHANGED <<chain, lastOut>>
+Next == ZeroIter \/ GridCase \/ RefStep \/ Default \/ Icdf \/ IcdfTop \/ Point \/ PointHD
 Spec == Init /\ [][Next]_vars
 TraceAccepted == TraceAcceptedBy(TraceLen)
 =============================================================================
